@@ -63,7 +63,7 @@ theorem hash_is_sha256_of_path :
 /-- `MsgSendToFxClaim`: `%d/%d%s/%s/%s/%s/%s` -/
 theorem sendToFx_path_injective (k₁ k₂ : AddrKind) (c₁ c₂ : MsgSendToFxClaim)
     (v₁ : c₁.valid k₁ = true) (v₂ : c₂.valid k₂ = true) (h : c₁.path = c₂.path) : c₁.effect = c₂.effect := by
-  simp only [MsgSendToFxClaim.valid, Bool.and_eq_true] at v₁ v₂
+  simp only [MsgSendToFxClaim.valid, MsgSendToFxClaim.validGen, Bool.and_eq_true] at v₁ v₂
   obtain ⟨⟨⟨⟨⟨⟨⟨_, s₁⟩, t₁⟩, r₁⟩, a₁⟩, _⟩, _⟩, _⟩ := v₁
   obtain ⟨⟨⟨⟨⟨⟨⟨_, s₂⟩, t₂⟩, r₂⟩, a₂⟩, _⟩, _⟩, _⟩ := v₂
   simp only [MsgSendToFxClaim.path, fmt_d_uint64, fmt_s_string, fmt_s_IntString] at h
@@ -82,7 +82,7 @@ theorem sendToFx_path_injective (k₁ k₂ : AddrKind) (c₁ c₂ : MsgSendToFxC
 /-- `MsgBridgeCallClaim`: `%d/%d/%s/%s/%s/%s/%v/%v/%s/%s/%s` (with TxOrigin and Memo) -/
 theorem bridgeCall_path_injective (k₁ k₂ : AddrKind) (c₁ c₂ : MsgBridgeCallClaim)
     (v₁ : c₁.valid k₁ = true) (v₂ : c₂.valid k₂ = true) (h : c₁.path = c₂.path) : c₁.effect = c₂.effect := by
-  simp only [MsgBridgeCallClaim.valid, Bool.and_eq_true] at v₁ v₂
+  simp only [MsgBridgeCallClaim.valid, MsgBridgeCallClaim.validGen, Bool.and_eq_true] at v₁ v₂
   obtain ⟨⟨⟨⟨⟨⟨⟨⟨⟨⟨⟨_, tc₁⟩, _⟩, s₁⟩, to₁⟩, rf₁⟩, _⟩, d₁⟩, _⟩, _⟩, o₁⟩, _⟩ := v₁
   obtain ⟨⟨⟨⟨⟨⟨⟨⟨⟨⟨⟨_, tc₂⟩, _⟩, s₂⟩, to₂⟩, rf₂⟩, _⟩, d₂⟩, _⟩, _⟩, o₂⟩, _⟩ := v₂
   simp only [MsgBridgeCallClaim.path, fmt_d_uint64, fmt_s_string, fmt_v_string, fmt_s_IntString, fmt_s_sliceString,
@@ -108,7 +108,7 @@ theorem bridgeCall_path_injective (k₁ k₂ : AddrKind) (c₁ c₂ : MsgBridgeC
 /-- `MsgBridgeCallResultClaim`: `%d/%d/%d/%t/%s/%s` (with TxOrigin) -/
 theorem bridgeCallResult_path_injective (k₁ k₂ : AddrKind) (c₁ c₂ : MsgBridgeCallResultClaim)
     (v₁ : c₁.valid k₁ = true) (v₂ : c₂.valid k₂ = true) (h : c₁.path = c₂.path) : c₁.effect = c₂.effect := by
-  simp only [MsgBridgeCallResultClaim.valid, Bool.and_eq_true] at v₁ v₂
+  simp only [MsgBridgeCallResultClaim.valid, MsgBridgeCallResultClaim.validGen, Bool.and_eq_true] at v₁ v₂
   obtain ⟨⟨⟨⟨⟨_, _⟩, _⟩, _⟩, _⟩, ca₁⟩ := v₁
   obtain ⟨⟨⟨⟨⟨_, _⟩, _⟩, _⟩, _⟩, ca₂⟩ := v₂
   simp only [MsgBridgeCallResultClaim.path, fmt_d_uint64, fmt_s_string] at h
@@ -127,7 +127,7 @@ theorem bridgeCallResult_path_injective (k₁ k₂ : AddrKind) (c₁ c₂ : MsgB
 /-- `MsgSendToExternalClaim`: `%d/%d/%s/%d/` -/
 theorem sendToExternal_path_injective (k₁ k₂ : AddrKind) (c₁ c₂ : MsgSendToExternalClaim)
     (v₁ : c₁.valid k₁ = true) (v₂ : c₂.valid k₂ = true) (h : c₁.path = c₂.path) : c₁.effect = c₂.effect := by
-  simp only [MsgSendToExternalClaim.valid, Bool.and_eq_true] at v₁ v₂
+  simp only [MsgSendToExternalClaim.valid, MsgSendToExternalClaim.validGen, Bool.and_eq_true] at v₁ v₂
   obtain ⟨⟨⟨⟨_, t₁⟩, _⟩, _⟩, _⟩ := v₁
   obtain ⟨⟨⟨⟨_, t₂⟩, _⟩, _⟩, _⟩ := v₂
   simp only [MsgSendToExternalClaim.path, fmt_d_uint64, fmt_s_string] at h
@@ -144,7 +144,7 @@ theorem sendToExternal_path_injective (k₁ k₂ : AddrKind) (c₁ c₂ : MsgSen
 /-- `MsgBridgeTokenClaim`: `%d/%d%s/%x/%x/%d/%s/` (free-form Name and Symbol hex-encoded) -/
 theorem bridgeToken_path_injective (k₁ k₂ : AddrKind) (c₁ c₂ : MsgBridgeTokenClaim)
     (v₁ : c₁.valid k₁ = true) (v₂ : c₂.valid k₂ = true) (h : c₁.path = c₂.path) : c₁.effect = c₂.effect := by
-  simp only [MsgBridgeTokenClaim.valid, Bool.and_eq_true] at v₁ v₂
+  simp only [MsgBridgeTokenClaim.valid, MsgBridgeTokenClaim.validGen, Bool.and_eq_true] at v₁ v₂
   obtain ⟨⟨⟨⟨⟨⟨⟨⟨_, t₁⟩, ch₁⟩, _⟩, _⟩, _⟩, _⟩, n₁⟩, sy₁⟩ := v₁
   obtain ⟨⟨⟨⟨⟨⟨⟨⟨_, t₂⟩, ch₂⟩, _⟩, _⟩, _⟩, _⟩, n₂⟩, sy₂⟩ := v₂
   simp only [MsgBridgeTokenClaim.path, fmt_d_uint64, fmt_s_string, fmt_x_string] at h
@@ -165,7 +165,7 @@ theorem bridgeToken_path_injective (k₁ k₂ : AddrKind) (c₁ c₂ : MsgBridge
 /-- `MsgOracleSetUpdatedClaim`: `%d/%d/%d/%v/` -/
 theorem oracleSetUpdated_path_injective (k₁ k₂ : AddrKind) (c₁ c₂ : MsgOracleSetUpdatedClaim)
     (v₁ : c₁.valid k₁ = true) (v₂ : c₂.valid k₂ = true) (h : c₁.path = c₂.path) : c₁.effect = c₂.effect := by
-  simp only [MsgOracleSetUpdatedClaim.valid, Bool.and_eq_true] at v₁ v₂
+  simp only [MsgOracleSetUpdatedClaim.valid, MsgOracleSetUpdatedClaim.validGen, Bool.and_eq_true] at v₁ v₂
   obtain ⟨⟨⟨⟨_, _⟩, m₁⟩, _⟩, _⟩ := v₁
   obtain ⟨⟨⟨⟨_, _⟩, m₂⟩, _⟩, _⟩ := v₂
   have m₁ := members_addr m₁
